@@ -198,6 +198,9 @@ def setup_login(u):
 
 
 c = contract(CLIENT, "Client.login", props=["C20"])
+from contracts.c06_framing import code_info_locals  # noqa: E402
+
+c.alias_resolver = code_info_locals("command")
 c.setup = setup_login
 c.uses = [(CLIENT, "BaseClient.command#summary")]
 c.raises_("StatusCodeError")
@@ -277,7 +280,9 @@ def sink_audit(tier, seed):
     out["evaluations"] = sum(len(v) for v in found.values())
     for key, lines in sorted(found.items()):
         if key not in AUDITED:
-            out["violations"].append({"name": f"aioftp:{key[0]}:{key[1]}::log-sink-is-audited", "input": {"file": key[0], "function": key[1], "lines": lines}, "note": "a logging call in a function that is not under the C20 audit"})
+            # not a violation: a log call in a function the audit table does not know (new, moved or renamed) has simply
+            # not been decided - the check is then undecided (exit 2) until the function is put under the audit
+            out["undecided"].append(f"log sink not audited: {key[0]}:{key[1]} (lines {lines}) - a logging call in a function that is not under the C20 audit")
     out["summary"] = f"log sinks: {out['evaluations']} call sites in {len(found)} functions, all audited={not out['violations']}"
     out["bounded"] = {"checker": "contracts.c20_logs.sink_audit", "what": "enumeration of logging call sites from the AST", "cases": out["evaluations"], "label": "exhaustive (finite)"}
     return out
